@@ -443,6 +443,25 @@ theorem adjacent_of_cycle (g : List (Edge K)) (loop : List GNode) (h : isSimpleC
   simp only [isSimpleCycle, Bool.and_eq_true, List.all_eq_true, adjacent] at h
   exact h.1.2
 
+/-- the pre-fix code (`pe = false`, finding C15-c): the KVL equation of a loop holds when the graph has no dummy
+    node, i.e. no two components join the same pair of nodes.  Not part of the property (see Props/C15.lean). -/
+theorem mesh_eqs_hold_prefix (kind : Kind) (s : K) (cs : List (Cpt K)) (x : Ix → K) (loops : List (List GNode))
+    (im : Nat → K) (hdef : ∀ c ∈ cs, MeshOk kind s c) (hlaws : Laws kind s cs x) (loop : List GNode)
+    (hcyc : isSimpleCycle (buildGraph cs) loop = true)
+    (hnopar : ∀ e ∈ buildGraph cs, ∃ n, e.b = GNode.real n)
+    (hcons : ∀ ab ∈ loopPairs loop, ∀ idx c, component (buildGraph cs) ab.1 ab.2 = some (idx, c) → isV c = false →
+      meshCurrent false (buildGraph cs) loops idx c im = -(through kind s x c))
+    (f : MeshForm K) (hf : meshEq false kind s (buildGraph cs) loops loop = some f) : f.eval im = 0 := by
+  rw [meshEq_eval false kind s (buildGraph cs) loops x im (loopPairs loop) ?_ f hf]
+  · cases loop with
+    | nil => simp [loopPairs, lsum]
+    | cons a t =>
+      simp only [loopPairs]
+      rw [pairsFrom_telescope (gvolt x) a a t, sub_self]
+  · intro ab hab t ht
+    exact meshTerm_eval false kind s cs (buildGraph cs) (buildGraph_ok cs) loops x im hlaws hdef
+      (fun _ => hnopar) ab (adjacent_of_cycle _ loop hcyc ab hab) (hcons ab hab) t ht
+
 
 /-! ### a concrete circuit for the non-vacuity examples: V1 1 0 6; R1 1 2 3; R2 2 0 5, loop 0-1-2 -/
 
